@@ -224,13 +224,14 @@ func TestC02(t *testing.T) {
 		}
 		addC("A1@pow0", 1, eng.ModeCommit, "plain", "r1cs")
 		// compiled whole verifier: full proofs under the deployed configuration, prefixes under the others
-		addC("A1", 28, eng.ModeCommit, "fixed", "r1cs")
-		addC("B1", 28, eng.ModeCommit, "plain", "r1cs")
-		addC("A2", 28, eng.ModeCommit, "plain", "scs")
-		addC("A1", 1, eng.ModePlain, "plain", "r1cs") // bit decomposition: ~10x more constraints, one round only
+		// whole circuits compiled with gnark's builders cost ~1 M R1CS constraints (~2 GB) per query round on top of
+		// ~2 M: at most three rounds, and (below) all compiled items on two shards, one after the other
+		addC("A1", 3, eng.ModeCommit, "fixed", "r1cs")
+		addC("B1", 2, eng.ModeCommit, "plain", "r1cs")
+		addC("A2", 2, eng.ModeCommit, "plain", "scs")
 		addC("B2", 1, eng.ModeNative, "plain", "scs")
 		for i, b := range corp.Names {
-			addC(b, 3+i, eng.ModeCommit, "plain", []string{"scs", "r1cs"}[i%2])
+			addC(b, 1+i%3, eng.ModeCommit, "plain", []string{"scs", "r1cs"}[i%2])
 			if isA(b) {
 				addC(b, 2, eng.ModeCommit, "fixed", "scs")
 			}
@@ -261,8 +262,24 @@ func TestC02(t *testing.T) {
 		}
 	}
 	agg := map[string]any{}
-	for i, it := range items {
-		if !rec.Mine(i) {
+	nc, ne := 0, 0
+	for _, it := range items {
+		// compiled whole circuits need several GB each: in the thorough tier they all go to shards 0 and 1
+		// (sequentially there); everything else is dealt round-robin to the remaining shards
+		var take bool
+		if rec.Thorough() && rec.NShards() > 4 {
+			if it.Backend != "" {
+				take = rec.ShardIdx() == nc%2
+				nc++
+			} else {
+				take = rec.ShardIdx() == 2+ne%(rec.NShards()-2)
+				ne++
+			}
+		} else {
+			take = rec.Mine(nc + ne)
+			nc++
+		}
+		if !take {
 			continue
 		}
 		ok, d, extra := c02Run(it)
